@@ -275,6 +275,16 @@ def recipes(tier='quick'):
         add('PointwiseInner', {'pspace-weighting': wn, 'op-weighting': 'given'},
             lambda ps=ps: odl.PointwiseInner(ps(), ps().element([[1, 2], [-1, 0.5]]), weighting=[2.0, 1.0]))
         add('PointwiseSum', {'pspace-weighting': wn}, lambda ps=ps: odl.PointwiseSum(ps()))
+        add('PointwiseInner', {'pspace-weighting': wn, 'op-weighting': 'unit-scalar'},
+            lambda ps=ps: odl.PointwiseInner(ps(), ps().element([[1, 2], [-1, 0.5]]), weighting=1.0))
+        add('PointwiseInner', {'pspace-weighting': wn, 'op-weighting': 'unit-array'},
+            lambda ps=ps: odl.PointwiseInner(ps(), ps().element([[1, 2], [-1, 0.5]]), weighting=[1.0, 1.0]))
+        add('PointwiseSum', {'pspace-weighting': wn, 'op-weighting': 'unit-scalar'},
+            lambda ps=ps: odl.PointwiseSum(ps(), weighting=1.0))
+        add('PointwiseSum', {'pspace-weighting': wn, 'op-weighting': 'given'},
+            lambda ps=ps: odl.PointwiseSum(ps(), weighting=[2.0, 0.5]))
+        add('PointwiseNorm-linear-adjoint-of-derivative', {'pspace-weighting': wn},
+            lambda ps=ps: odl.PointwiseNorm(ps(), exponent=2).derivative(ps().element([[1, 2], [-1, 0.5]])))
         add('LinCombOperator', {'pspace-weighting': wn}, lambda: odl.LinCombOperator(r2, 2.0, -1.0))
     cps = odl.ProductSpace(odl.cn(2), 2)
     add('PointwiseInner', {'pspace-weighting': 'none', 'dtype': 'complex'},
@@ -327,6 +337,13 @@ def recipes(tier='quick'):
         lambda: odl.trafos.FourierTransform(odl.uniform_discr(-2, 2, 4, dtype='float64')))
     add('WaveletTransform', {'wavelet': 'haar', 'pad_mode': 'pywt_periodic'},
         lambda: odl.trafos.WaveletTransform(odl.uniform_discr(0, 1, 8), 'haar', nlevels=2, pad_mode='pywt_periodic'))
+    w2 = odl.uniform_discr([0, 0], [1, 2], [4, 4])
+    for axes in (None, (0,), (1,), -1):
+        for pad in ('pywt_periodic', 'constant'):
+            add('WaveletTransform', {'wavelet': 'haar', 'pad_mode': pad, 'ndim': '2', 'axes': str(axes)},
+                lambda axes=axes, pad=pad: odl.trafos.WaveletTransform(w2, 'haar', nlevels=1, pad_mode=pad, axes=axes))
+            add('WaveletTransformInverse', {'wavelet': 'haar', 'pad_mode': pad, 'ndim': '2', 'axes': str(axes)},
+                lambda axes=axes, pad=pad: odl.trafos.WaveletTransform(w2, 'haar', nlevels=1, pad_mode=pad, axes=axes).inverse)
     add('WaveletTransform', {'wavelet': 'db2', 'pad_mode': 'pywt_periodic'},
         lambda: odl.trafos.WaveletTransform(odl.uniform_discr(0, 1, 8), 'db2', nlevels=1, pad_mode='pywt_periodic'))
     return R
